@@ -2,7 +2,7 @@
     what MetaExtractor(...)(dataset) returned (or the class of the exception it raised). *)
 From Coq Require Import Strings.String.
 From Coq Require Import List Bool NArith ZArith.
-From DV Require Import Common.Res Common.Str Generated.T_extract Extract.Model.
+From DV Require Import Common.Res Common.Str Common.PyNum Generated.T_extract Extract.Model.
 Import ListNotations.
 Local Open Scope N_scope.
 
@@ -52,6 +52,35 @@ Definition fuel : nat := 8.
 
 Definition model (k : case) : res dict := extract fuel (config_of k) (k_ds k).
 
-Definition check (k : case) : bool := res_eqb dict_eqb (model k) (k_obs k).
+(** Input consistency (pydicom facts the theorems take as hypotheses, verified on every case):
+    a single DS / IS value that carries the text it was made from has the value float(text) / int(text);
+    an element is called "Private Creator" exactly when its group is odd and its element is in 0x10..0xff. *)
+Fixpoint raw_ok (i : einfo) (v : val) {struct v} : bool :=
+  match v with
+  | VSeq items => forallb (fun item => forallb (fun p => raw_ok (fst p) (snd p)) item) items
+  | VNum CDs x _ => match e_raw i with
+                    | Some s => match py_float s with Ok y => fval_eqb x y | Err _ => false end
+                    | None => true
+                    end
+  | VInt CIs z => match e_raw i with
+                  | Some s => match py_int s with Ok y => Z.eqb z y | Err _ => false end
+                  | None => true
+                  end
+  | _ => true
+  end.
+
+Definition creator_tag (t : tag) : bool := N.odd (fst t) && (16 <=? snd t) && (snd t <=? 255).
+
+Fixpoint creators_ok (i : einfo) (v : val) {struct v} : bool :=
+  Bool.eqb (str_eqb (e_name i) private_creator_name) (creator_tag (e_tag i)) &&
+  match v with
+  | VSeq items => forallb (fun item => forallb (fun p => creators_ok (fst p) (snd p)) item) items
+  | _ => true
+  end.
+
+Definition inputs_ok (ds : dataset) : bool :=
+  forallb (fun p => raw_ok (fst p) (snd p) && creators_ok (fst p) (snd p)) ds.
+
+Definition check (k : case) : bool := inputs_ok (k_ds k) && res_eqb dict_eqb (model k) (k_obs k).
 
 Definition show (k : case) := model k.
